@@ -163,8 +163,13 @@ def gen_c08(rnd, n, thorough=False):
             names = ['g/x/a.wsp', 'g/y/a.wsp', 'g/y/b.wsp']
             for nm in names:
                 gl += fill_ops(rnd, nm, layout, m, xff, density=0.4, inconsistent=False)
-            if rnd.chance(0.5):
+            r_ = rnd.random()
+            if r_ < 0.35:
                 gl += fill_ops(rnd, 'h/y/a.wsp', layout, m, xff, density=0.4, inconsistent=False)
+            elif r_ < 0.7:
+                # a destination that exists with another layout, for a matched file that is not the last:
+                # the run fails there (and the later files are not touched)
+                gl += fill_ops(rnd, rnd.pick(['h/x/a.wsp', 'h/y/a.wsp']), [(s_, nn + 1) for s_, nn in layout], m, xff, density=0.3, inconsistent=False)
             if rnd.chance(0.5):
                 # one matched name is a symbolic link to a whisper file elsewhere: it is a matched source file
                 gl += fill_ops(rnd, 'other/t.wsp', layout, m, xff, density=0.4, inconsistent=False)
@@ -280,6 +285,11 @@ def gen_c09(rnd, n, thorough=False):
                 if nm in differing:
                     cp = cp[:-2] + ["many h/%s 0 @ 1 @-%d %016x" % (nm, layout[0][0], fbits(777.0))] + cp[-2:]
                 gl += cp
+            if rnd.chance(0.4):
+                # the last matched pair cannot be compared (unequal layouts) after earlier ones differ or are
+                # clean: the run ends with the error, not with "difference found"
+                gl = [l_ for l_ in gl if ' h/y/b.wsp' not in l_]
+                gl += fill_ops(rnd, 'h/y/b.wsp', [(s_, nn + 2) for s_, nn in layout], m, xff, density=0.3, inconsistent=False)
             pat = rnd.pick(['*/*.wsp', '*/a.wsp', 'q/*.wsp', '[xy]/*.wsp', 'x/[.wsp'])
             gl.append("clidiff src=g:%s dest=h: from=0 until=0 archive=-1 spell=%d" % (pat, rnd.pick([0, 1, 2, 3, 4])))
             cases.append({'id': 'c09-%d-glob' % c, 'lines': gl, 'tags': {'layout': lname, 'pair': 'glob', 'window': 'default'}})
